@@ -96,7 +96,9 @@ def main(argv):
             print('VIOLATION property=%s replay=%s' % (pid, replay))
             return 1
         return 0
-    core.write_evidence(pid, ev)
+    target = repo or os.environ.get('PYASN1_REPO') or '/repo'
+    if os.path.realpath(target) == os.path.realpath('/repo'):
+        core.write_evidence(pid, ev)       # evidence describes /repo itself; runs on scratch copies (--repo) leave it alone
     print('property %s tier=%s obligations=%d discharged=%d wall=%.2fs digest=%s' % (
         pid, tier, ev['coverage']['obligations'], ev['coverage']['discharged'], ev['wall_s'],
         ev['coverage']['source_digest'][:12]))
